@@ -93,7 +93,10 @@ def _from_json(j):
     if t in ser._UN:
         return getattr(p, ser._UN[t])(from_json(j["a"]))
     if t == "Cmp":
-        return p.Comparison(from_json(j["a"]), j["op"], from_json(j["b"]))
+        op = j["op"]
+        if _ALT:      # the operator by its name (accepted, normalised by the constructor)
+            op = {"==": "eq", "!=": "ne", "<": "lt", "<=": "le", ">": "gt", ">=": "ge"}[op]
+        return p.Comparison(from_json(j["a"]), op, from_json(j["b"]))
     if t == "If":
         return p.If(from_json(j["i"]), from_json(j["th"]), from_json(j["el"]))
     if t == "Call":
@@ -117,18 +120,20 @@ def _from_json(j):
 
 _NP = False
 _OMIT = False
+_ALT = False
 _MEMO = None
 
 
 def build(entry):
-    global _NP, _OMIT, _MEMO
+    global _NP, _OMIT, _MEMO, _ALT
     _NP = bool(entry.get("np"))
     _OMIT = entry.get("mode") == "omit"
+    _ALT = entry.get("mode") == "alt"
     _MEMO = {} if entry.get("mode") == "shared" else None
     try:
         e = from_json(entry["e"])
     finally:
-        _NP, _OMIT, _MEMO = False, False, None
+        _NP, _OMIT, _MEMO, _ALT = False, False, None, False
     if entry["kind"] == "compiled":
         return CompiledExpression(e, list(entry["vars"]))
     if entry.get("src"):
